@@ -23,7 +23,8 @@ type Level struct {
 	Metrics  []*types.Var          // fields named like the spec's metrics of this level, in struct order
 	ByName   map[string]*types.Var // metric name -> field
 	VerField *types.Var            // v3 Base only
-	Names    *types.Var            // the unexported names set
+	Names    *types.Var            // the unexported set of names seen (map[string]bool)
+	DecodeOne *types.Func          // the unexported per-token decoder: func (*T) X(string) error
 	Other    []*types.Var          // anything else declared in the struct
 	Problems []string
 }
@@ -73,7 +74,10 @@ func (f *Facts) Levels(v *spec.Version) ([]*Level, error) {
 				l.ByName[fv.Name()] = fv
 			case fv.Name() == "Ver":
 				l.VerField = fv
-			case fv.Name() == "names":
+			case isNamesSet(fv):
+				if l.Names != nil {
+					l.Problems = append(l.Problems, "more than one unexported map[string]bool field")
+				}
 				l.Names = fv
 			default:
 				l.Other = append(l.Other, fv)
@@ -96,7 +100,28 @@ func (f *Facts) Levels(v *spec.Version) ([]*Level, error) {
 			}
 		}
 		if l.Names == nil {
-			l.Problems = append(l.Problems, "no names field")
+			l.Problems = append(l.Problems, "no unexported map[string]bool field recording the names seen")
+		}
+		// the per-token decoder, identified by role (unexported, pointer receiver, func(string) error), not by name
+		var cands []*types.Func
+		for j := 0; j < named.NumMethods(); j++ {
+			m := named.Method(j)
+			sig := m.Type().(*types.Signature)
+			if m.Exported() || sig.Params().Len() != 1 || sig.Results().Len() != 1 {
+				continue
+			}
+			if b, ok := sig.Params().At(0).Type().(*types.Basic); !ok || b.Kind() != types.String {
+				continue
+			}
+			if !types.Identical(sig.Results().At(0).Type(), types.Universe.Lookup("error").Type()) {
+				continue
+			}
+			cands = append(cands, m)
+		}
+		if len(cands) == 1 {
+			l.DecodeOne = cands[0]
+		} else {
+			l.Problems = append(l.Problems, fmt.Sprintf("expected exactly one unexported method func(string) error (the per-token decoder), found %d", len(cands)))
 		}
 		out = append(out, l)
 		lower = l
@@ -127,4 +152,17 @@ func (f *Facts) FieldOwner() map[*types.Var]string {
 		}
 	}
 	return out
+}
+
+func isNamesSet(fv *types.Var) bool {
+	if fv.Exported() {
+		return false
+	}
+	m, ok := fv.Type().Underlying().(*types.Map)
+	if !ok {
+		return false
+	}
+	k, ok1 := m.Key().Underlying().(*types.Basic)
+	v, ok2 := m.Elem().Underlying().(*types.Basic)
+	return ok1 && ok2 && k.Kind() == types.String && v.Kind() == types.Bool
 }
